@@ -162,6 +162,21 @@ class TilingMonitor(Monitor):
                                   f"(end {end})", "duration-fall")
                 elif lo != hi:
                     ctx.gray("duration-fall-eom")
+                # independent cap (not through Pulse.fall_time): a ramp-down is accounted with at most twice the rise
+                # time of the modulation that applies - the EOM's while the channel is in the block the pulse belongs to
+                cap = end
+                for pp in c["slots"][::-1]:
+                    if pp["kind"] in ("pulse", "ddelay"):
+                        inb, now = in_block(c, pp), eom_now(c)
+                        tr = eom_rise(c["obj"]) if (inb and now) else rise(c["obj"]) if not (inb or now) \
+                            else max(eom_rise(c["obj"]), rise(c["obj"]))
+                        cap = max(cap, pp["tf"] + 2 * tr)
+                        if pp["kind"] == "pulse":
+                            break
+                ctx.count("duration_fall_cap_checks")
+                if d1 > cap:
+                    ctx.violation("duration-fall", f"get_duration({n}, include_fall_time=True)={d1} (end {end}) exceeds the last "
+                                  f"pulse's end plus twice the applicable rise time ({cap})", "duration-fall-cap")
             try:
                 tot = seq.get_duration()
                 if tot != max(ends.values()):
